@@ -4,13 +4,19 @@ C03 — the keyed matcher is a function of the observable history (`KLocal`), fo
 -/
 namespace PyatvModel.C03
 
-/-- what a message that matches no waiting request turns into -/
-def unmatched (cfg : Cfg) (k : Option Nat) (v : Nat) : Out :=
-  if cfg.dispatchUnmatched then .dispatch k v else .drop k v
-
 /-- the two configurations that exist in pyatv satisfy this (MRP removes abandoned entries,
     Companion neither removes nor dispatches) -/
 def Cfg.real (cfg : Cfg) : Prop := cfg.removeOnTimeout = true ∨ cfg.dispatchUnmatched = false
+
+/-- Specification of the matching of a message by its identifier, in terms of what was
+    observable before. -/
+def KRecvSpec (cfg : Cfg) (p : Trace) (k : Option Nat) (v : Nat) (o : List Out) : Prop :=
+  match k with
+  | none => o = [unmatched cfg none v]
+  | some c =>
+      (∀ r, Out.sent r c ∈ outs p → outcomes r (outs p) = 0 → o = [.deliver r (some c) v]) ∧
+      ((∀ r, Out.sent r c ∈ outs p → outcomes r (outs p) ≠ 0) →
+        (o = [.dispatch (some c) v] ∨ o = [.drop (some c) v]) ∧ (cfg.real → o = [unmatched cfg (some c) v]))
 
 /-- Specification of one step of the keyed matcher in terms of what was observable before. -/
 def KLocal (cfg : Cfg) (p : Trace) (e : Ev) (o : List Out) : Prop :=
@@ -18,11 +24,10 @@ def KLocal (cfg : Cfg) (p : Trace) (e : Ev) (o : List Out) : Prop :=
   | .send => ∃ r k, o = [.sent r k] ∧ outcomes r (outs p) = 0 ∧
       ∀ r' k', Out.sent r' k' ∈ outs p → r' ≠ r ∧ k' ≠ k
   | .burn => o = []
-  | .recv none v => o = [.dispatch none v]
-  | .recv (some c) v =>
-      (∀ r, Out.sent r c ∈ outs p → outcomes r (outs p) = 0 → o = [.deliver r (some c) v]) ∧
-      ((∀ r, Out.sent r c ∈ outs p → outcomes r (outs p) ≠ 0) →
-        (o = [.dispatch (some c) v] ∨ o = [.drop (some c) v]) ∧ (cfg.real → o = [unmatched cfg (some c) v]))
+  | .recv k v => KRecvSpec cfg p k v o
+  | .msg kd k v =>
+      if cfg.typed then o = [match kd with | .event => .dispatch k v | .other => .drop k v]
+      else KRecvSpec cfg p k v o
   | .timeout r =>
       ((∃ k, Out.sent r k ∈ outs p) → outcomes r (outs p) = 0 → o = [.timeoutErr r]) ∧
       (¬ ((∃ k, Out.sent r k ∈ outs p) ∧ outcomes r (outs p) = 0) → o = [])
@@ -41,10 +46,35 @@ structure KInv (cfg : Cfg) (s : KState) (past : Trace) : Prop where
 theorem kinv_init (cfg : Cfg) (b : Nat) : KInv cfg (kinit b) [] := by
   refine ⟨?_, ?_, ?_, ?_, ?_, ?_, ?_, good_nil _⟩ <;> simp [kinit]
 
-theorem kinv_step (cfg : Cfg) (s : KState) (past : Trace) (e : Ev) (h : KInv cfg s past) :
+/-- a step that leaves the state alone and emits one output that is neither a `sent` nor an
+    outcome of anybody -/
+theorem kinv_inert (cfg : Cfg) (s : KState) (past : Trace) (e : Ev) (x : Out) (h : KInv cfg s past)
+    (hno : ∀ r, outcomes r [x] = 0) (hns : ∀ r c, x ≠ Out.sent r c) (hl : KLocal cfg past e [x]) :
+    KInv cfg s (past ++ [(e, [x])]) := by
+  obtain ⟨hent, hsnt, hwait, huniq, hfresh, honce, hlive, hgood⟩ := h
+  have hns' : ∀ r c, Out.sent r c ∈ outs past ++ [x] ↔ Out.sent r c ∈ outs past := by
+    intro r c
+    simp only [List.mem_append, List.mem_singleton]
+    constructor
+    · rintro (h | h)
+      · exact h
+      · exact absurd h.symm (hns r c)
+    · exact Or.inl
+  refine ⟨?_, ?_, ?_, ?_, ?_, ?_, hlive, good_snoc hgood hl⟩
+  · intro c e' hc; simpa [hns', hno] using hent c e' hc
+  · intro r c hm; simp only [outs_snoc, hns'] at hm; exact hsnt r c hm
+  · intro r c hm ho; simp only [outs_snoc, hns', outcomes_append, hno, Nat.add_zero] at hm ho
+    exact hwait r c hm ho
+  · intro r r' c h1 h2; simp only [outs_snoc, hns'] at h1 h2; exact huniq r r' c h1 h2
+  · intro r hr; simp only [outs_snoc, outcomes_append, hno, Nat.add_zero]; exact hfresh r hr
+  · intro r; simp only [outs_snoc, outcomes_append, hno, Nat.add_zero]; exact honce r
+
+theorem kinv_step_aux (cfg : Cfg) (s : KState) (past : Trace) (e : Ev) (h : KInv cfg s past)
+    (hne : ∀ kd k v, e ≠ .msg kd k v) :
     KInv cfg (kstep cfg s e).1 (past ++ [(e, (kstep cfg s e).2)]) := by
   obtain ⟨hent, hsnt, hwait, huniq, hfresh, honce, hlive, hgood⟩ := h
   cases e with
+  | msg kd k v => exact absurd rfl (hne kd k v)
   | send =>
     refine ⟨?_, ?_, ?_, ?_, ?_, ?_, ?_, good_snoc hgood ?_⟩
     · intro c e hc
@@ -110,20 +140,26 @@ theorem kinv_step (cfg : Cfg) (s : KState) (past : Trace) (e : Ev) (h : KInv cfg
   | recv k v =>
     cases k with
     | none =>
-      refine ⟨?_, ?_, ?_, ?_, ?_, ?_, ?_, good_snoc hgood ?_⟩
-      · simpa [kstep] using hent
-      · simpa [kstep] using hsnt
-      · simpa [kstep] using hwait
-      · simpa [kstep] using huniq
-      · simpa [kstep] using hfresh
-      · simpa [kstep] using honce
-      · simpa [kstep] using hlive
-      · simp [KLocal, kstep]
+      have hst : kstep cfg s (.recv none v) = (s, [unmatched cfg none v]) := by simp [kstep, krecv]
+      rw [hst]
+      have hno : ∀ r, outcomes r [unmatched cfg none v] = 0 := by
+        intro r; unfold unmatched; split <;> simp
+      have hns : ∀ r c, Out.sent r c ∈ outs past ++ [unmatched cfg none v] ↔ Out.sent r c ∈ outs past := by
+        intro r c; unfold unmatched; split <;> simp
+      refine ⟨?_, ?_, ?_, ?_, ?_, ?_, hlive, good_snoc hgood ?_⟩
+      · intro c e hc; simpa [hns, hno] using hent c e hc
+      · intro r c hm; simp only [outs_snoc, hns] at hm; exact hsnt r c hm
+      · intro r c hm ho; simp only [outs_snoc, hns, outcomes_append, hno, Nat.add_zero] at hm ho
+        exact hwait r c hm ho
+      · intro r r' c h1 h2; simp only [outs_snoc, hns] at h1 h2; exact huniq r r' c h1 h2
+      · intro r hr; simp only [outs_snoc, outcomes_append, hno, Nat.add_zero]; exact hfresh r hr
+      · intro r; simp only [outs_snoc, outcomes_append, hno, Nat.add_zero]; exact honce r
+      · rfl
     | some k =>
       cases htk : s.tbl k with
       | none =>
         have hst : kstep cfg s (.recv (some k) v) = (s, [unmatched cfg (some k) v]) := by
-          simp [kstep, htk, unmatched]
+          simp [kstep, krecv, htk]
         rw [hst]
         have hno : ∀ r, outcomes r [unmatched cfg (some k) v] = 0 := by
           intro r; unfold unmatched; split <;> simp
@@ -151,7 +187,7 @@ theorem kinv_step (cfg : Cfg) (s : KState) (past : Trace) (e : Ev) (h : KInv cfg
           have ho0 : outcomes e.req (outs past) = 0 := hea.mp hal
           have hst : kstep cfg s (.recv (some k) v) =
               ({ s with tbl := upd s.tbl k none }, [.deliver e.req (some k) v]) := by
-            simp [kstep, htk, hal]
+            simp [kstep, krecv, htk, hal]
           rw [hst]
           have hother : ∀ c e', c ≠ k → s.tbl c = some e' → e'.req ≠ e.req := by
             intro c e' hck hc heq
@@ -217,7 +253,7 @@ theorem kinv_step (cfg : Cfg) (s : KState) (past : Trace) (e : Ev) (h : KInv cfg
             intro h; have := hea.mpr h; rw [hal] at this; cases this
           have hst : kstep cfg s (.recv (some k) v) =
               ({ s with tbl := upd s.tbl k none }, [.drop (some k) v]) := by
-            simp [kstep, htk, hal]
+            simp [kstep, krecv, htk, hal]
           rw [hst]
           refine ⟨?_, ?_, ?_, ?_, ?_, ?_, ?_, good_snoc hgood ?_⟩
           · intro c e' hc
@@ -351,6 +387,34 @@ theorem kinv_step (cfg : Cfg) (s : KState) (past : Trace) (e : Ev) (h : KInv cfg
         have hw := hwait r k hk ho
         have hk' := (hsnt r k hk).2.2
         exact absurd ⟨⟨r, true⟩, by rw [hk']; exact hw, rfl, rfl⟩ hcase
+
+theorem kinv_step (cfg : Cfg) (s : KState) (past : Trace) (e : Ev) (h : KInv cfg s past) :
+    KInv cfg (kstep cfg s e).1 (past ++ [(e, (kstep cfg s e).2)]) := by
+  cases e with
+  | msg kd k v =>
+    by_cases hty : cfg.typed = true
+    · cases kd with
+      | event =>
+        have hst : kstep cfg s (.msg .event k v) = (s, [.dispatch k v]) := by simp [kstep, hty]
+        rw [hst]
+        exact kinv_inert cfg s past _ _ h (by simp) (by simp) (by simp [KLocal, hty])
+      | other =>
+        have hst : kstep cfg s (.msg .other k v) = (s, [.drop k v]) := by simp [kstep, hty]
+        rw [hst]
+        exact kinv_inert cfg s past _ _ h (by simp) (by simp) (by simp [KLocal, hty])
+    · -- the type is not looked at: exactly the behaviour of `recv`
+      have hst : kstep cfg s (.msg kd k v) = kstep cfg s (.recv k v) := by simp [kstep, hty]
+      rw [hst]
+      have hr := kinv_step_aux cfg s past (.recv k v) h (by intro _ _ _ hh; cases hh)
+      obtain ⟨a1, a2, a3, a4, a5, a6, a7, a8⟩ := hr
+      have hl : KLocal cfg past (.recv k v) (kstep cfg s (.recv k v)).2 := a8 past _ _ [] rfl
+      refine ⟨by simpa using a1, by simpa using a2, by simpa using a3, by simpa using a4,
+        by simpa using a5, by simpa using a6, a7, good_snoc h.good ?_⟩
+      simpa [KLocal, hty] using hl
+  | send => exact kinv_step_aux cfg s past _ h (by intro _ _ _ hh; cases hh)
+  | burn => exact kinv_step_aux cfg s past _ h (by intro _ _ _ hh; cases hh)
+  | recv k v => exact kinv_step_aux cfg s past _ h (by intro _ _ _ hh; cases hh)
+  | timeout r => exact kinv_step_aux cfg s past _ h (by intro _ _ _ hh; cases hh)
 
 theorem kinv_run (cfg : Cfg) (b : Nat) (evs : List Ev) :
     KInv cfg (finalS (kstep cfg) (kinit b) evs) (runT (kstep cfg) (kinit b) evs) :=
